@@ -14,18 +14,28 @@ CFG = {
                   "specification's grammar: END TO END read_mesh (encode a) = describe a for every abstract file in the "
                   "quantifier (point clouds, tri/quad meshes, meshes with per-corner texture coordinates; any property "
                   "order and uchar/int/float/double mix; uchar/int/uint counts, int/uint indices; ascii/LE/BE; header "
-                  "noise; CRLF via a Coq model of readLine + strings.Fields), composed from layout, record, group, "
-                  "unclaimed-scalar, list-reader and quad-fan theorems; the model is tied to the Go code on every run by "
-                  "evaluating it (vm_compute) on files produced by an independent Go reference encoder and comparing with "
-                  "what ply.ReadMesh returned, and the implementation's mesh is judged directly against the mesh the "
-                  "abstract file describes",
-    "level_note": "Trusted: Coq kernel + vm_compute; hand-written model tied by differential correspondence only "
-                  "(generator quality bounds it); number text (strconv), line splitting and '\\r' removal are Go-side: "
-                  "the harness tokenises the real bytes with its own tokenizer",
+                  "noise and alias spellings; blank body lines; CRLF via a Coq model of readLine + strings.Fields; further "
+                  "elements and data after the face element), composed from layout, record, group, unclaimed-scalar, "
+                  "list-reader, quad-fan (one statement with / without texcoord list, binary and ascii) and unweld "
+                  "(corner k carries the vertex it references) theorems, with _refuted witnesses for the known finding and "
+                  "for elements before the vertex element; the model is tied to the Go code on every run by evaluating it "
+                  "(vm_compute) on files produced by an independent Go reference encoder and comparing with what "
+                  "ply.ReadMesh returned, and the implementation's mesh is judged directly against the mesh the abstract "
+                  "file describes; files past internal block sizes (> 64 KiB of records, > 65536 vertices) are named by a "
+                  "formula evaluated on both sides and compared by position-sensitive fingerprints",
+    "level_note": "Trusted: Coq kernel + vm_compute (incl. primitive 63-bit integers for the fingerprints of formula files); "
+                  "hand-written model tied by differential correspondence only (generator quality bounds it); number text "
+                  "(strconv), line splitting and '\\r' removal are Go-side: the harness tokenises the real bytes with its "
+                  "own tokenizer; formula files: equality of 63-bit rolling fingerprints stands for equality of bodies "
+                  "and meshes",
     "technique": "Coq proof (induction over property lists, records, header lines, faces; composition to whole files) + vm_compute correspondence check",
     "design_ref": "DESIGN.md §4 C08",
     "n_quick": 180, "n_thorough": 6000,
-    "rule": "systematic files on every run, independent of the seed (per encoding: every recognised group with its "
+    "rule": "fixed streams on every run, independent of the seed: 8 formula files past internal block sizes (24/25/27/40-byte "
+            "records around 64 KiB, 65540 one-byte records with vertex numbers above 65535, ascii body and binary / ascii "
+            "face blocks above 64 KiB; fingerprints), 30 files whose number of face corners equals / is one triangle away "
+            "from the number of vertices with permuted, identity and repeated indices, 23 malformed or unimplemented files "
+            "(model vs implementation), and systematic files (per encoding: every recognised group with its "
             "members permuted and unrelated properties of other sizes between them; float triples whose outer members "
             "are 8 bytes apart with the middle one elsewhere; quads and triangles with repeated indices in every "
             "position, with and without per-corner UVs; lone / partial / type-mixed group members as extra properties; "
@@ -37,16 +47,23 @@ CFG = {
             "missing group member), aliases, 0-6 vertices with boundary values, face element with uchar/int/uint counts, "
             "int/uint indices, vertex_index(/indices), optional texcoord float/double and extra list properties, "
             "tri/mixed/quad, header noise (comment/obj_info/blank lines incl. the words element, property, end_header), "
-            "CRLF, other elements after the faces, ascii/LE/BE; 1/12 cut streams; a small share outside the quantifier "
+            "CRLF, blank line before the format line, other elements after the faces, face soups (as many vertices as "
+            "corners), ascii/LE/BE; every 10th file a pair through the same reader (first mesh rendered after a second "
+            "file of the same layout was read / first file read again / same names with other types read right after); "
+            "every 4th file and all fixed files also through a reader with short reads, ply.Load and the ReadNode wrapper; "
+            "every 60th a random formula file around a power-of-two body size; 1/12 cut streams; a small share outside the quantifier "
             "(char/short/ushort/uint, vertex list property, n-gons, unusual count/index types) compared with the model "
             "only; distinct by file bytes; non-trivial = at least one vertex and three properties",
-    "trusted": ["uchar (s,t) pairs: Go multiplies by 1/255 (vector2.DivByConstant); the implementation's TexCoord values are "
+    "trusted": ["formula files (Formats/PlyBig.v): body and mesh are compared through 63-bit rolling fingerprints "
+                "(h' = h*2654435761 + x + 1, every 64-bit word as two halves), computed by Coq's primitive integers and by Go",
+                "uchar (s,t) pairs: Go multiplies by 1/255 (vector2.DivByConstant); the implementation's TexCoord values are "
                 "translated through a second 256-entry table (Formats/PlyReadV2.v) before the comparison",
                 "strconv.ParseFloat/ParseInt/FormatFloat and strings.Fields are outside the model: the harness passes "
                 "each ASCII token as the pair (ParseInt result, ParseFloat bits)",
                 "float64(b)/255 is tabulated for the 256 byte values (table checked against Go on every run by the correspondence)"],
     "modelled": ["formats/ply/reader.go ReadHeader + MeshReader.Read, reader_vector1-4.go builders and readers, "
-                 "reader_list_ascii.go / reader_list_binary.go, meshops.Unweld for per-corner texture coordinates"],
+                 "reader_list_ascii.go / reader_list_binary.go, meshops.Unweld for per-corner texture coordinates; "
+                 "ply.Load (bufio.Reader) and types.go ReadNodeData.Process only as 'same result as ReadMesh on the same bytes'"],
 }
 
 
